@@ -30,6 +30,31 @@ CHECKS = {
    technique="exhaustive enumeration of the small-size configuration box x getters, outcome classification",
    text="The full box n_b x n_o in 1..5 (thorough 1..8 and all algorithms) x 1-3 radii x both position modes is constructed and all five getters are called; each outcome must be an array of the right shape or ValueError (QhullError only in Cartesian mode with <3 directions).",
    note="Trusted: outcome classification only (values are the subject of C02-C06)."),
+
+ "C03": dict(category="exploration", design="DESIGN.md §3 O-S2, §5 C03",
+   technique="exhaustive enumeration over every N and every pair against an independent arc-clipping spherical Voronoi oracle",
+   text="For ico, cube3D and randomS and EVERY N in 4..130 (thorough 4..330 plus level boundaries up to 1000) every pair (i,j) of the real grid's adjacency, border and distance matrices and every cell area is compared with a Qhull-free oracle that clips bisector great circles; symmetry, diagonal, common pattern, entry order and the 4 pi sum are checked on every grid.",
+   note="Trusted: mc/oracles/s2.py (closed-form arc intersection, Van Oosterom-Strackee areas). Tolerance 1e-7."),
+ "C04": dict(category="exploration", design="DESIGN.md §3 O-S3, §5 C04",
+   technique="exhaustive enumeration over every N and every pair against a gnomonic polygon-clipping S^3 Voronoi oracle folded over sign",
+   text="For cube4D and randomQ and EVERY N in 4..40 (thorough 4..80, 100, 150, 272) every pair of rotations incl. index 0 and pairs adjacent only through the antipode is compared with Voronoi faces of {+-q} computed by planar Sutherland-Hodgman clipping in gnomonic projection (independent of Qhull); symmetry, diagonal, common pattern, distances and single-face borders are checked.",
+   note="Trusted: mc/oracles/s3.py. Border tolerance 5e-5 (code rounds cosines to 7 decimals); borders of two-face pairs are not compared (left open by the statement)."),
+ "C05": dict(category="exploration", design="DESIGN.md §5 C05",
+   technique="exhaustive enumeration of direction grids x radial grids, every cell and pair against closed forms on the O-S2 oracle",
+   text="3 algorithms x N menu (thorough every N 4..64) x 8-13 radial grids with unequal increments, unsorted input and every syntax: every cell volume and every ordered pair's adjacency/border/distance is compared with the closed forms of the statement built on the independent spherical Voronoi oracle, plus the three sum rules.",
+   note="Trusted: O-S2 and 40 lines of closed forms; radii of the oracle come from exact rationals. Tolerance 1e-7 relative."),
+ "C06": dict(category="exploration", design="DESIGN.md §3 O-E3, §5 C06",
+   technique="exhaustive enumeration over every N x radial grids against a Qhull-free cone/slab closed form of the Euclidean Voronoi cells (Qhull ridge areas as oracle self-check)",
+   text="3 algorithms x every N in 4..45 plus 48..55, 80, 92, 98, 100, 162 (thorough every N to 100) x radial grids incl. the shipped 10-shell default in Cartesian mode: every cell volume, every adjacent pair's planar face area and Euclidean distance is compared with the exact cone-over-spherical-cell closed form; positivity, symmetry, pattern and entry order are checked. Open-cell grids (F6) are reported as known findings.",
+   note="Trusted: cone/slab argument (DESIGN O-E3) + O-S2; cross-checked against convex-hull areas of scipy Voronoi ridges on one radial grid per (alg, N). Tolerance 1e-6 relative."),
+ "C15": dict(category="exploration", design="DESIGN.md §3 O-MC, §5 C15",
+   technique="exhaustive enumeration over every N and every cell against the Monte-Carlo nearest-rotation measure prescribed by the property",
+   text="cube4D and randomQ x every N in 1..40 (thorough 1..80, 100, 272): every cell volume is compared with the measure of its nearest-rotation region estimated from 400000 uniform points on S^3 (private PCG64 stream), plus positivity, first-N-of-2N, the 12 % sum band and the equal-share rule for N<4. The exploration over N and cells is exhaustive; only the oracle is statistical, as the property defines it.",
+   note="A cell is flagged only beyond 30 % + 5 standard errors, so oracle noise cannot raise an alarm. F10 (randomQ_5 cell 4) is a listed finding."),
+ "C02": dict(category="exploration", design="DESIGN.md §5 C02",
+   technique="exhaustive enumeration of grid combinations; every pair of cells against an independent Kronecker-sum composition of the factor matrices",
+   text="7 rotation grids x 12 direction grids x 3 radial grids x both modes x factors {1,2,0.5} (thorough: every N 4..20 / 2..13): all three full matrices are compared entry by entry with kron(position, I) + kron(I, rotation) built from the package's own factor getters, with f / f^2 on either family; symmetry, diagonal, positivity, stored entry order, volumes and row order of the grid array are checked.",
+   note="The factor matrices themselves are verified by C03-C06; this check is about composition only. Symmetry is asserted to 1e-12 relative (mirror-image faces are computed separately)."),
 }
 NOT_YET = {}
 
